@@ -171,6 +171,26 @@ theorem bytes_decode_consumes_words (b v r : Bytes) (h : getBytes b = .ok (v, r)
     consumed b r % 4 = 0 ∧ v.length < 2 ^ 24 ∧ v.length < consumed b r ∧ r.length ≤ b.length :=
   getBytes_ok_consumed h
 
+/-! ## The other direction -/
+
+/-- Fixed-size primitives: whatever was decoded re-encodes to exactly the bytes consumed (decoding
+is injective: no two byte strings give the same int / long / id). -/
+theorem fixed_size_decode_then_encode (b r : Bytes) :
+    (∀ v, getU32 b = .ok (v, r) → putU32 v ++ r = b) ∧ (∀ i, getInt32 b = .ok (i, r) → putInt32 i ++ r = b) ∧
+    (∀ v, getU64 b = .ok (v, r) → putU64 v ++ r = b) ∧ (∀ i, getInt64 b = .ok (i, r) → putInt64 i ++ r = b) ∧
+    (∀ x n, getN n b = .ok (x, r) → x ++ r = b ∧ x.length = n) ∧
+    (∀ id u, consumeID id b = .ok (u, r) → putU32 id ++ r = b) :=
+  ⟨fun _ h => getU32_inv h, fun _ h => getInt32_inv h, fun _ h => getU64_inv h, fun _ h => getInt64_inv h,
+   fun _ _ h => getN_inv h, fun _ _ h => consumeID_inv h⟩
+
+/-- Strings/bytes are different: the decoder also accepts non-canonical encodings — the long form
+for a short value, and padding bytes that are not zero — so decoding is *not* injective there
+(observation; the property only asks for `decode ∘ encode = id`). -/
+theorem bytes_noncanonical_accepted :
+    getBytes [254, 1, 0, 0, 97, 0, 0, 0] = .ok ([97], []) ∧ getBytes [1, 97, 7, 7] = .ok ([97], []) ∧
+    putBytes [97] = [1, 97, 0, 0] := by
+  refine ⟨by rfl, by rfl, by decide⟩
+
 /-! ## Totality: no decoder panics; short or malformed input is an error
 
 `getU32P … getBytesP` are the transliterations of decode.go / bytes.go / string.go over Go's slice
